@@ -34,6 +34,13 @@ fn weird_kind() -> impl Strategy<Value = MKind> {
     prop_oneof![
         6 => mux::valid_kind(),
         3 => (any::<u16>(), any::<u16>(), prop::collection::vec(any::<u8>(), 0..5), prop::collection::vec(any::<u8>(), 0..3)).prop_map(|(width, height, sps, pps)| MKind::Avc { width, height, sps, pps }),
+        2 => (prop_oneof![Just(vec![0u8, 0, 0, 1]), Just(vec![0u8, 0, 1]), Just(vec![0u8, 0, 0, 0, 1])], prop::collection::vec(any::<u8>(), 0..6), any::<bool>()).prop_map(|(start, rest, both)| {
+            // parameter sets as they come out of an Annex B byte stream (start code still attached)
+            let mut sps = start.clone();
+            sps.extend(rest);
+            let pps = if both { start } else { vec![0x68, 1] };
+            MKind::Avc { width: 8, height: 8, sps, pps }
+        }),
         1 => (65530usize..65545, any::<bool>()).prop_map(|(n, which)| {
             let big = vec![0x5a; n];
             let small = vec![0x67, 66, 0, 30];
@@ -133,7 +140,9 @@ pub fn oracle(ctx: &mut Ctx, case: &MuxCase) -> Check {
             let sum: u128 = m.iter().map(|s| s.dur as u128).sum();
             ts != 0 && sum * (case.timescale as u128) / (ts as u128) < (1u128 << 62)
         });
-        if representable {
+        // (if the muxer accepted a configuration this harness expects it to reject, the model of
+        // track ids does not apply: nothing to compare against)
+        if representable && case.tracks.iter().all(mux::expect_accept) {
             super::c02::validate(case, &run.model, &bytes)?;
             super::c01::check_readback(case, &run, &bytes)?;
             through_oracles = true;
@@ -184,6 +193,11 @@ pub fn run(ctx: &mut Ctx) {
     directed.push(base(vec![tr(MKind::Aac { profile: 2, freq_index: 4, chan: 2, bitrate: 1 }, 44100, "eng")], vec![op(1, (1 << 24) + 1, 1024)], 1000));
     directed.push(base(vec![tr(MKind::Aac { profile: 42, freq_index: 12, chan: 7, bitrate: u32::MAX }, u32::MAX, "eng")], (0..6).map(|_| op(1, 3, u32::MAX)).collect(), u32::MAX));
     directed.push(base(vec![tr(avc(vec![0x5a; 65536]), 1000, "und")], vec![op(1, 1, 1)], 1000));
+    for n in 0..5 {
+        let mut sps = vec![0u8, 0, 0, 1];
+        sps.extend(std::iter::repeat(0x67).take(n));
+        directed.push(base(vec![tr(avc(sps), 1000, "und")], vec![op(1, 1, 1)], 1000));
+    }
     directed.push(base(vec![tr(MKind::Avc { width: 1, height: 1, sps: vec![1, 2, 3, 4], pps: vec![9; 70000] }, 1000, "und")], vec![op(1, 1, 1)], 1000));
     for (i, case) in directed.iter().enumerate() {
         if !ctx.enter(i as u64) {
